@@ -2,6 +2,7 @@
 CONSTANTS
   Keys = {"a", "b"}
   Reqs = {1, 2, 3}
+  Kinds = {"plain", "ws"}
   CacheSize = 1
   Burst = 1
   Rate = 1
@@ -11,7 +12,6 @@ CONSTANTS
   DeferRelease = TRUE
   WatchTime = 2
   WatchEvict = 2
-  SimDepth = 0
 INIT MCInit
 NEXT MCNext
 VIEW View
